@@ -128,6 +128,12 @@ def _mk_zshift(periodic):
         # xlow/corner line uses even contours
         T0 = trapz_calls[0][2]
         env.claim_eq("xlow_minus_corner_is_quadrature_increment", z0.xlow[0, 0] - z0.corners[0, 0], T0[2] - T0[1])
+        # second region of the chain: every location continues from the value at the shared face (calls 3..5 are its contours)
+        T3, T4 = trapz_calls[3][2], trapz_calls[4][2]
+        env.claim_eq("second_region_xlow=shared_corner+quadrature_increment", z1.xlow[0, 0] - z0.corners[0, -1], T3[2] - T3[1])
+        env.claim_eq("second_region_centre=shared_face+quadrature_increment", z1.centre[0, 0] - z0.ylow[0, -1], T4[2] - T4[1])
+        env.claim_eq("second_region_upper_face=shared_face+quadrature_increment", z1.ylow[0, -1] - z0.ylow[0, -1], T4[3] - T4[1])
+        env.claim_eq("second_region_upper_corner=shared_corner+quadrature_increment", z1.corners[0, -1] - z0.corners[0, -1], T3[3] - T3[1])
         # integrand = Bt/(R*|Bp|) with Bt = fpol/R
         y, x, _ = trapz_calls[1]
         fine = regs[0].contours[1].fine
